@@ -23,7 +23,7 @@ theorem same_refl (fs : List (Rec → Code)) (x : Rec) : same fs x x = true := b
 
 theorem same_cons (f : Rec → Code) (fs : List (Rec → Code)) (x r : Rec) :
     same (f :: fs) x r = (decide (f r = f x) && same fs x r) := by
-  simp [same, Bool.eq_iff_iff]
+  simp [same]
 
 structure Spec (fs : List (Rec → Code)) (b : List Rec) (T : List (List Rec)) : Prop where
   cls : ∀ t ∈ T, ∃ x ∈ t, t = b.filter (same fs x)
@@ -57,7 +57,7 @@ theorem filter_cons_ne_same (f : Rec → Code) (x y : Rec) (t : List Rec) (hy : 
     (x :: t).filter (same [f] y) = t.filter (same [f] y) := by
   have : same [f] y x = false := by
     simp only [same_false_iff]; intro h; exact hy (h f (by simp)).symm
-  simp [List.filter_cons, this]
+  simp [this]
 
 theorem groupF_spec (f : Rec → Code) (n : Nat) (l : List Rec) (hn : l.length ≤ n) :
     Spec [f] l (groupF f n l) := by
